@@ -173,4 +173,8 @@ end
 /-- `landMask` on a non-negative argument is the plain `&` (used by the `C12_tr_*` theorems) -/
 theorem landMask_ofNat (n m : Nat) : landMask (n : Int) m = n &&& m := rfl
 
+/-- a bit vector with a positive value is at least one (side condition of `BitVec.toNat_sub_of_le` in the `C12_tr_*` theorems) -/
+theorem bv_one_le {w : Nat} (x : BitVec (w+1)) (h : 0 < x.toNat) : 1#(w+1) ≤ x := by
+  simp [BitVec.le_def]; omega
+
 end Fatchoy.C12
